@@ -143,6 +143,25 @@ def _take_summary(ctx, results, outp, out):
         results["judgements"].append(j)
 
 
+def sweep_runtime(n_quick, n_thorough):
+    """C02/C07/C10/C16: compile generated functions with instrumented user functions and execute them"""
+    def f(ctx, results):
+        outp = os.path.join(ctx["scratch"], "runtime-%d.json" % ctx["widen"])
+        n = (n_quick if ctx["tier"] == "quick" else n_thorough) * ctx["widen"]
+        cmd = [ctx["harness"], "runtime", "-cli", ctx["cli"], "-driver", ctx["driver"], "-n", str(n), "-seed", str(ctx["seed"]),
+               "-prop", ctx["pid"], "-replays", ctx["replays"], "-out", outp]
+        rc, out = ctx["run"](cmd, cwd=ctx["scratch"])
+        ctx["log"](out.strip()[-1500:])
+        _take_summary(ctx, results, outp, out)
+    return f
+
+
+RUNTIME_RULE = ("; run-time part: struct pairs with instrumented getters, converters and hooks (call trace, fault plan), generated "
+                "functions compiled and executed on 5 value variants (all present, nil nested pointers, nil slices/maps, empty/zero, "
+                "extreme scalars + sub-slices of shared backing arrays) and under every single and pairwise fault plan; judged from "
+                "outside: no panic, source and arguments unmodified, unassigned destination leaves unchanged/zero, fresh slice storage, "
+                "hook order/operands, first failing call site returned and nothing called after it")
+
 RUNNER_RULE = ("the built CLI as a black box: %s; the whole scratch module is hashed before and after every run; the Lean runner "
                "model predicts exit status, stdout and the set of files written, with `core` instantiated by a reference -dry -print "
                "run in a pristine copy; distinct = distinct (core result class, flag set, output-path state, cwd) tuples")
@@ -163,7 +182,10 @@ PROPS = {
     "C01": {
         "bridge": RENDER + TABLES,
         "extra_modules": ["Convergen.Props.C04", "Convergen.Props.C16"],
-        "sweeps": [sweep_front("mixed", 200, 6000, cats=["body", "slice", "hook", "header", "errflow"], compile=True)],
+        "sweeps": [sweep_front("mixed", 160, 6000, cats=["body", "slice", "hook", "header", "errflow"], compile=True),
+                   sweep_front("matching", 60, 2000, cats=["body", "slice"], compile=True),
+                   sweep_front("slices", 60, 2000, cats=["body", "slice"], compile=True),
+                   sweep_front("hooks", 60, 2000, cats=["hook"], compile=True)],
         "rule": FRONT_RULE % "mixed" + "; judge: every emitted file is compiled in its package (go build -gcflags=-e, setup file excluded "
                 "by its tag) and checked with gofmt -l",
         "explanation": "what castNode returns is assignable / a String() of a Stringer where string is assignable / a conversion between "
@@ -172,10 +194,26 @@ PROPS = {
                        "of carried-over declarations are go/printer / goimports behaviour, seen by the sweep only",
         "assumptions": ["Go's typing of the emitted fragment is judged by the compiler, not modelled (GoTyping is limited to castNode_sound and the slice decision)"],
     },
+    "C02": {
+        "bridge": RENDER,
+        "extra_modules": ["Convergen.Props.C05", "Convergen.Props.C06"],
+        "sweeps": [sweep_runtime(60, 1500), sweep_front("nesting", 120, 3000, cats=["body", "slice"]),
+                   sweep_front("scoping", 80, 2000, cats=["body", "slice"])],
+        "rule": FRONT_RULE % "nesting/scoping" + RUNTIME_RULE,
+        "explanation": "abstract execution of the statement tree: statements read only the source operands and write pairwise "
+                       "distinct destination paths, so sequential execution equals the parallel assignment read off the text, and "
+                       "every path not under an assigned one keeps its value (frame); direction under :reverse; the nil-nested-"
+                       "pointer panic is a listed finding; Go's semantics of the emitted fragment is validated by executing the "
+                       "generated code, not proved",
+        "assumptions": ["user-supplied getters, converters, String methods and hooks are side-effect-free and do not panic"],
+    },
     "C03": {
         "bridge": TABLES,
-        "sweeps": [sweep_front("layout", 200, 6000, cats=["exit", "missing-func"]),
-                   sweep_front("simple", 100, 3000, cats=["exit", "missing-func"])],
+        "sweeps": [sweep_front("layout", 150, 6000, cats=["exit", "missing-func"]),
+                   sweep_front("mixed", 100, 3000, cats=["exit", "missing-func"]),
+                   sweep_front("hooks", 60, 2000, cats=["exit", "missing-func"]),
+                   sweep_front("notations", 80, 2000, cats=["exit", "missing-func"]),
+                   sweep_front("signatures", 60, 2000, cats=["exit", "missing-func"])],
         "rule": "well-formed setup files with unusual layouts (no comments, one-line interfaces, comments on brace lines, adjacent "
                 "declarations, several interfaces, CRLF, no final newline, directives in both spellings, surrounding declarations of "
                 "every kind) and well-formed notation mixes; judged: exit 0 and one function per method; distinct = distinct "
@@ -202,7 +240,8 @@ PROPS = {
     },
     "C04": {
         "bridge": RENDER + TABLES,
-        "sweeps": [sweep_front("matching", 150, 4000, cats=["body", "slice", "stderr"])],
+        "sweeps": [sweep_front("matching", 150, 4000, cats=["body", "slice", "stderr"]),
+                   sweep_front("mixed", 60, 2000, cats=["body", "slice", "stderr"])],
         "rule": FRONT_RULE % "matching",
         "explanation": "castNode returns the candidate itself, its String() only under :stringer, a conversion only under :typecast "
                        "(castNode_opt_in/sound); candidates of other names are ignored (handler_ignores_other_names); :match none "
@@ -212,7 +251,9 @@ PROPS = {
     },
     "C05": {
         "bridge": RENDER,
-        "sweeps": [sweep_front("nesting", 150, 4000, cats=["body", "slice", "stderr"])],
+        "sweeps": [sweep_front("nesting", 120, 4000, cats=["body", "slice", "stderr"]),
+                   sweep_front("imports", 80, 2000, cats=["body", "slice", "stderr"]),
+                   sweep_front("mixed", 60, 2000, cats=["body", "slice", "stderr"])],
         "rule": FRONT_RULE % "nesting",
         "explanation": "every no-match statement carries its positioned warning; only accessible members are visited; the "
                        "dropped-nested-struct case is exhibited as a witness (finding)",
@@ -220,7 +261,9 @@ PROPS = {
     },
     "C06": {
         "bridge": RENDER + TABLES,
-        "sweeps": [sweep_front("notations", 150, 4000, cats=["body", "slice", "stderr"])],
+        "sweeps": [sweep_front("notations", 160, 4000, cats=["body", "slice", "stderr"]),
+                   sweep_front("nesting", 80, 2000, cats=["body", "slice", "stderr"]),
+                   sweep_front("casefold", 60, 2000, cats=["body", "slice", "stderr"])],
         "rule": FRONT_RULE % "notations",
         "explanation": "precedence chain skip > conv > map > $n-map > literal > default proved clause by clause on matchField; "
                        "explicit lookups ignore the case rule; witness for :skip on a nested path under a whole-struct copy (finding)",
@@ -228,7 +271,8 @@ PROPS = {
     },
     "C07": {
         "bridge": RENDER,
-        "sweeps": [sweep_front("errors", 150, 4000, cats=["errflow", "body", "hook", "exit"])],
+        "sweeps": [sweep_front("errors", 150, 4000, cats=["errflow", "body", "hook", "exit"]),
+                   sweep_front("hooks", 80, 2000, cats=["errflow", "hook", "exit"]), sweep_runtime(50, 1500)],
         "rule": FRONT_RULE % "errors",
         "explanation": "text level: a check follows every error-capable top-level assignment and every error-returning hook; "
                        "error hooks are rejected for methods without error result; witness: nested error-capable calls are unchecked",
@@ -236,7 +280,8 @@ PROPS = {
     },
     "C08": {
         "bridge": RENDER,
-        "sweeps": [sweep_front("signatures", 120, 3000, cats=["header", "missing-func", "exit"])],
+        "sweeps": [sweep_front("signatures", 140, 3000, cats=["header", "missing-func", "exit"]),
+                   sweep_front("imports", 80, 2000, cats=["header", "missing-func", "exit"])],
         "rule": FRONT_RULE % "signatures",
         "explanation": "sigHead = documented header for every shape except receiver + return style + additional args (witness); "
                        "results as documented; names/pointer-ness preserved by createVar; illegal :reverse combinations rejected",
@@ -252,7 +297,7 @@ PROPS = {
     },
     "C10": {
         "bridge": RENDER,
-        "sweeps": [sweep_front("hooks", 150, 4000, cats=["hook", "exit", "errflow"])],
+        "sweeps": [sweep_front("hooks", 200, 4000, cats=["hook", "exit", "errflow"]), sweep_runtime(50, 1500)],
         "rule": FRONT_RULE % "hooks",
         "explanation": "text order doc/signature/allocation/pre/assignments/post/return; call arguments dst, src, extra args in "
                        "order; adaptation correct where declared pointer-ness is the real one (witness for arg style by-value dst); "
@@ -306,7 +351,8 @@ PROPS = {
     },
     "C14": {
         "bridge": TABLES,
-        "sweeps": [sweep_front("malformed", 200, 6000, cats=["exit", "stderr"])],
+        "sweeps": [sweep_front("malformed", 200, 6000, cats=["exit", "stderr"]),
+                   sweep_front("mixed", 80, 3000, cats=["exit", "stderr"])],
         "rule": FRONT_RULE % "malformed",
         "explanation": "model functions are total; diagnostics of notation lines are positioned; crash sites of the notation "
                        "parser characterised exactly (hook lookup with <2 params; :literal with a Unicode blank)",
@@ -314,7 +360,7 @@ PROPS = {
     },
     "C16": {
         "bridge": RENDER,
-        "sweeps": [sweep_front("slices", 150, 4000, cats=["slice", "body"])],
+        "sweeps": [sweep_front("slices", 150, 4000, cats=["slice", "body"]), sweep_runtime(50, 1500)],
         "rule": FRONT_RULE % "slices",
         "explanation": "sliceToSlice decision = spec; no converting loop without :typecast; text of the three statements "
                        "(nil guard, make of source length, copy/loop); witness: named slice types are not slices for the builder",
